@@ -75,6 +75,20 @@ CHECKS = {
   "assumed: sync.Mutex semantics (Lock returns only when free), sync.Map gives one entry per key (package-local extern contracts), Go memory model for sync/atomic (a load that sees 1 sees the preceding plain store), sequential consistency of the modelled steps; "
   "soundness of the rely-guarantee rule implemented in govc (interference points: every shared access and call); liveness (that Do eventually returns) is not claimed",
   "contract-based deductive verification with rely/guarantee clauses and ghost history variables; thread-modular VCs over go/ssa discharged by z3/cvc5"),
+ "C11": ("5 C11",
+  "Decided as properties of the individual file steps rather than by exploring interleavings: putIndexEntry opens the entry file without O_TRUNC and with O_CREATE, and truncates it to the entry's length only after a successful write, "
+  "so a rewrite of equal content never shortens or empties an entry a concurrent reader may be looking at; the reader-side gates (C05's contracts on get/GetBytes/GetFile: exact record size and layout, matching action id, checksum, size) "
+  "hold whatever another process has written; copyFile writes the size-completing last byte only after the hash comparison succeeded; put writes the index entry only after copyFile returned nil and with the id, output id and size it computed.",
+  "assumed: each os call is atomic with respect to the others (a reader's single ReadFull does not observe half of a concurrent WriteString); SHA-256 is collision-free; the interference-freedom argument that combines these step properties into 'every successful lookup returns bytes some Put stored for that id' is on paper (DESIGN section 5 C11), not an obligation; "
+  "'once all writers have finished every stored id is readable' needs the Put-then-Get lemma, which is not stated yet",
+  "contract-based deductive verification: call-site obligations on the file steps of the store side plus the lookup-side functional contracts; z3/cvc5"),
+ "C12": ("5 C12",
+  "copyFile: once the output file has been opened for writing, every error return is preceded by truncating the file to zero length or removing it (ghost history flag set by the step contracts), unless that clean-up step is itself the single permitted failing operation; "
+  "the last (size-completing) byte is written only after bytes.Equal on the running hash and the expected output id returned true. putIndexEntry: an error is returned only after trying to remove the entry file. "
+  "put: a failing copyFile returns its error and putIndexEntry is never reached; no other path of put calls it.",
+  "assumed: step contracts of os.OpenFile / Truncate / Remove / Write / Close, io.CopyN and io.MultiWriter (abstract), hash.Hash (abstract), the source reader (abstract); stopping between two steps is the same state as returning after the first (atomic-step view). "
+  "NOT decided: the byte-level invariant 'the data file never reaches the expected size with unverified content' during the copy (needs a positional content model of overwriting an existing shorter/equal file), and the exotic case of overwriting in place a same-size file whose verification could not be opened",
+  "contract-based deductive verification: ghost clean-up history, single-failure budget, call-site ordering obligations; z3/cvc5"),
  "C13": ("5 C13",
   "Contracts over ghost mtimes, a monotone clock and integer nanoseconds: used() leaves an existing file's mtime younger than (now - 1h) when no file operation fails; OutputFile calls it on the name it returns; "
   "trimSubdir calls os.Remove only on Join(subdir, n) for listed names n ending in -a/-d whose mtime is before the cutoff (call-site obligation) and, when nothing fails, removes every such name (loop invariant); "
